@@ -296,6 +296,47 @@ theorem largestOf_spec (cs : List (List PyId)) (hne : cs ≠ []) :
     obtain ⟨m, e, hmem, hmax⟩ := largestOf_foldl_spec t c [c] (by simp) (by simp)
     exact ⟨m, e, by simpa using hmem, by simpa using hmax⟩
 
+/-- `max(cs, key=len)` returns the FIRST element of maximal length -/
+theorem largestOf_first_aux : ∀ (cs : List (List PyId)) (b : List PyId) (p1 p2 : List (List PyId)),
+    (∀ c ∈ p1, c.length < b.length) → (∀ c ∈ p2, c.length ≤ b.length) →
+    ∃ m q1 q2, cs.foldl (fun best c => match best with
+        | none => some c
+        | some b => if c.length > b.length then some c else some b) (some b) = some m ∧
+      p1 ++ b :: p2 ++ cs = q1 ++ m :: q2 ∧ (∀ c ∈ q1, c.length < m.length) ∧ (∀ c ∈ q2, c.length ≤ m.length) := by
+  intro cs
+  induction cs with
+  | nil => intro b p1 p2 h1 h2; exact ⟨b, p1, p2, rfl, by simp, h1, h2⟩
+  | cons c t ih =>
+    intro b p1 p2 h1 h2
+    simp only [List.foldl_cons]
+    by_cases hc : c.length > b.length
+    · simp only [hc, if_true]
+      obtain ⟨m, q1, q2, e, hsplit, hq1, hq2⟩ := ih c (p1 ++ b :: p2) []
+        (by intro x hx; simp at hx; rcases hx with hx | hx | hx
+            · exact Nat.lt_trans (h1 x hx) hc
+            · subst hx; exact hc
+            · exact Nat.lt_of_le_of_lt (h2 x hx) hc)
+        (by simp)
+      exact ⟨m, q1, q2, e, by simpa using hsplit, hq1, hq2⟩
+    · simp only [hc, if_false]
+      obtain ⟨m, q1, q2, e, hsplit, hq1, hq2⟩ := ih b p1 (p2 ++ [c]) h1
+        (by intro x hx; simp at hx; rcases hx with hx | hx
+            · exact h2 x hx
+            · subst hx; omega)
+      exact ⟨m, q1, q2, e, by simpa using hsplit, hq1, hq2⟩
+
+theorem largestOf_first (cs : List (List PyId)) (m : List PyId) (hm : largestOf cs = some m) :
+    ∃ q1 q2, cs = q1 ++ m :: q2 ∧ (∀ c ∈ q1, c.length < m.length) ∧ (∀ c ∈ q2, c.length ≤ m.length) := by
+  cases cs with
+  | nil => simp [largestOf] at hm
+  | cons c t =>
+    unfold largestOf at hm
+    simp only [List.foldl_cons] at hm
+    obtain ⟨m', q1, q2, e, hsplit, hq1, hq2⟩ := largestOf_first_aux t c [] [] (by simp) (by simp)
+    have e2 : some m = some m' := hm.symm.trans e
+    cases e2
+    exact ⟨q1, q2, by simpa using hsplit, hq1, hq2⟩
+
 /-! ### the node–edge bipartite graph -/
 
 /-- vertices of the node–edge bipartite graph: a node ID or an edge ID -/
